@@ -37,15 +37,34 @@ def io(fs, remove=False):
     filesystem's callables, or nothing at all (library defaults) on LocalFS."""
     if is_local(fs):
         return {}
+    if getattr(fs, 'plain_io', False):
+        # plain functions instead of bound methods of a filesystem object:
+        # the library cannot recover the filesystem from them and takes its
+        # "any callable" code paths
+        kw = {'open_with': lambda p, mode='rb': fs.open(p, mode),
+              'mkdirs': lambda p: fs.mkdirs(p)}
+        if remove:
+            kw['remove_with'] = lambda p: fs.rm(p)
+        return kw
     kw = {'open_with': fs.open, 'mkdirs': fs.mkdirs}
     if remove:
         kw['remove_with'] = fs.rm
     return kw
 
 
-def open_pf(path, fs):
+FILELIKE = set()    # paths opened through a file object instead of by name
+
+
+def open_pf(path, fs, for_write=False):
+    if path in FILELIKE:
+        # a data file whose *name* ends in _metadata is taken for a summary
+        # file when opened by name; a file object carries no name
+        return ParquetFile(open(path, 'rb') if is_local(fs)
+                           else fs.open(path, 'rb'))
     if is_local(fs):
         return ParquetFile(path)
+    if for_write and getattr(fs, 'plain_io', False):
+        return ParquetFile(path, open_with=io(fs)['open_with'])
     return ParquetFile(path, fs=fs)
 
 
@@ -63,6 +82,7 @@ def clone_fs(snap, profile='posix', **kw):
 
 def reset_library_caches():
     """State that could leak from one run into the next."""
+    _READER_DEATHS[0] = 0
     from fastparquet import util, json as fpjson
     try:
         util._val_to_num.cache_clear()
@@ -120,7 +140,7 @@ def do_append(fs, path, df, op, scheme, partition_on, pf=None):
     kw = w_opts(op)
     if op.get('entry') in ('wrg', 'wrg-iter'):
         if pf is None:
-            pf = open_pf(path, fs)
+            pf = open_pf(path, fs, for_write=True)
         if df.index.name is not None:
             # write_row_groups writes columns only: a written index is an
             # ordinary column of the stored data
@@ -128,9 +148,10 @@ def do_append(fs, path, df, op, scheme, partition_on, pf=None):
         data = df
         if op.get('entry') == 'wrg-iter':
             data = chunks_of(df, op.get('cuts') or ())
+        extra = {'sort_pnames': True} if op.get('sort_pnames') else {}
         pf.write_row_groups(data, kw.get('row_group_offsets'),
                             compression=kw.get('compression'),
-                            stats=kw.get('stats', 'auto'), **io(fs))
+                            stats=kw.get('stats', 'auto'), **extra, **io(fs))
         return pf
     kw.update(io(fs))
     write(path, df, file_scheme=scheme, partition_on=list(partition_on),
@@ -151,6 +172,8 @@ class ReaderCrashed(Exception):
 
 
 READ_KW = {}        # extra to_pandas() arguments of the current run
+READ_LIMIT = 20     # seconds an isolated fresh open + full read may take
+_READER_DEATHS = [0]
 
 
 def read_all(fs, path):
@@ -160,6 +183,11 @@ def read_all(fs, path):
     unreadable dataset instead of taking the harness down."""
     if os.environ.get('VERIF_ISOLATE') != '1':
         return _read_all(fs, path)
+    if _READER_DEATHS[0] >= 3:
+        # this run has already shown three datasets that kill or stall the
+        # reader: it is a violating run, do not spend minutes on more
+        raise ReaderCrashed('reader crashed or stalled on earlier datasets '
+                            'of this run; not tried again')
     r, w = os.pipe()
     pid = os.fork()
     if pid == 0:
@@ -177,10 +205,34 @@ def read_all(fs, path):
         finally:
             os._exit(code)
     os.close(w)
-    with os.fdopen(r, 'rb') as f:
-        blob = f.read()
+    # a reader that spins on damaged bytes is killed and reported, like one
+    # that crashes
+    import select
+    import signal
+    import time
+    deadline = time.monotonic() + READ_LIMIT
+    chunks = []
+    timed_out = False
+    while True:
+        left = deadline - time.monotonic()
+        if left <= 0:
+            timed_out = True
+            os.kill(pid, signal.SIGKILL)
+            break
+        ready, _, _ = select.select([r], [], [], min(left, 5.0))
+        if ready:
+            b = os.read(r, 1 << 20)
+            if not b:
+                break
+            chunks.append(b)
+    os.close(r)
+    blob = b''.join(chunks)
     _, status = os.waitpid(pid, 0)
+    if timed_out:
+        _READER_DEATHS[0] += 1
+        raise ReaderCrashed('reader did not finish within %d s' % READ_LIMIT)
     if os.WIFSIGNALED(status):
+        _READER_DEATHS[0] += 1
         raise ReaderCrashed('reader crashed the interpreter with signal %d'
                             % os.WTERMSIG(status))
     out = pickle.loads(blob)
